@@ -11,6 +11,7 @@ Python exports the real objects as JSON and reads TLC's verdicts.
 Parts (for --only): facts, bisim-module, bisim-expression, renumber, control, sentences (thorough).
 """
 import json
+import os
 import random
 
 from .common import Scratch, MachineryError, dump_json, run_parallel
@@ -82,6 +83,9 @@ def _gather(chk, sc):
 
 
 def _bisim(sc, tag, a_path, b_path, workers, coverage):
+    cap = int(os.environ.get("VERIF_PROCS") or 0)
+    if cap and cap < 12:
+        workers = min(cap, 4)
     return tlc(sc, "LRBisim", tag, invariants=BISIM_INVARIANTS, env={"TABLES_A": a_path, "TABLES_B": b_path},
                workers=workers, coverage=coverage, timeout=900)
 
@@ -188,7 +192,8 @@ def run(chk, only=None):
             dump_json(paths["control"], bad)
             add("control", lambda: _bisim(sc, "control", paths["fresh_expr"], paths["control"], 2, False))
 
-        results = dict(zip(labels, run_parallel(jobs, nproc=5)))
+        cap = int(os.environ.get("VERIF_PROCS") or 0)
+        results = dict(zip(labels, run_parallel(jobs, nproc=5 if not cap or cap >= 12 else 1)))
 
         # ---- verdicts (all taken from TLC's output) ------------------------------------------
         if "facts" in results:
